@@ -1073,8 +1073,10 @@ func compileRepeatStmt(context *funcContext, stmt *ast.RepeatStmt) { // {{{
 func compileBreakStmt(context *funcContext, stmt *ast.BreakStmt) { // {{{
 	refUpvalue := false
 	for block := context.Block; block != nil; block = block.Parent {
-		// the jump leaves every block up to and including the loop body: close if any of them has captured locals
-		refUpvalue = refUpvalue || block.RefUpvalue
+		// the jump leaves every block up to and including the loop body: close if any of them has captured locals.
+		// A block with a label can be re-entered by a backward goto, so a closure further down may capture its
+		// locals before this break runs (block.RefUpvalue is not final yet): such a break always closes
+		refUpvalue = refUpvalue || block.RefUpvalue || len(block.labels) > 0
 		if label := block.BreakLabel; label != labelNoJump {
 			if refUpvalue {
 				context.Code.AddABC(OP_CLOSE, block.Parent.LocalVars.LastIndex(), 0, 0, sline(stmt))
